@@ -24,6 +24,42 @@ def dump_cookie_path_safe():
     raise RuntimeError("dump_cookie not found")
 
 
+def regex_shapes_ok():
+    """The per-character tables below describe the regexes completely only if (a) the no-quote
+    pattern is `<one character class>*` used with fullmatch, (b) the slash pattern is one character
+    class (applied per byte by .sub). Checked on the parsed patterns and on dump_cookie's AST."""
+    import re
+
+    http = importlib.import_module("werkzeug.http")
+    try:
+        parser = re._parser  # py3.11+
+        consts = re._constants
+    except AttributeError:  # pragma: no cover
+        import sre_constants as consts
+        import sre_parse as parser
+    noq = list(parser.parse(http._cookie_no_quote_re.pattern, http._cookie_no_quote_re.flags))
+    a = (
+        len(noq) == 1
+        and noq[0][0] is consts.MAX_REPEAT
+        and noq[0][1][0] == 0
+        and noq[0][1][1] == consts.MAXREPEAT
+        and len(list(noq[0][1][2])) == 1
+        and list(noq[0][1][2])[0][0] is consts.IN
+    )
+    sl = list(parser.parse(http._cookie_slash_re.pattern, http._cookie_slash_re.flags))
+    b = len(sl) == 1 and sl[0][0] is consts.IN
+    # dump_cookie must use _cookie_no_quote_re.fullmatch(value) and _cookie_slash_re.sub(...)
+    tree = ast.parse(open(os.path.join(REPO, "src", "werkzeug", "http.py")).read())
+    methods = set()
+    for fn in ast.walk(tree):
+        if isinstance(fn, ast.FunctionDef) and fn.name == "dump_cookie":
+            for node in ast.walk(fn):
+                if isinstance(node, ast.Attribute) and isinstance(node.value, ast.Name) and node.value.id in ("_cookie_no_quote_re", "_cookie_slash_re"):
+                    methods.add((node.value.id, node.attr))
+    c = methods == {("_cookie_no_quote_re", "fullmatch"), ("_cookie_slash_re", "sub")}
+    return bool(a), bool(b), bool(c)
+
+
 @generator("Cookie")
 def gen_cookie():
     http = importlib.import_module("werkzeug.http")
@@ -49,10 +85,18 @@ def gen_cookie():
     spaces = [c for c in range(0x110000) if chr(c).isspace()]
     re_spaces = [c for c in range(0x110000) if __import__("re").fullmatch(r"\s", chr(c), __import__("re").ASCII)]
     path_safe = dump_cookie_path_safe()
+    shape_a, shape_b, shape_c = regex_shapes_ok()
     body = f"""namespace Wz.Gen.Cookie
 
 /-- the `safe=` literal of `quote(path, safe=...)` in `dump_cookie` (collected from the AST) -/
 def pathSafe : String := {lean_str(path_safe)}
+
+/-- structure checks that make the per-character tables a complete description of the regexes:
+no-quote pattern = one character class under `*`; slash pattern = one character class;
+`dump_cookie` uses `.fullmatch` / `.sub` on them. -/
+def noQuoteIsClassStar : Bool := {lean_bool(shape_a)}
+def slashIsClass : Bool := {lean_bool(shape_b)}
+def dumpUsesFullmatchAndSub : Bool := {lean_bool(shape_c)}
 
 /-- `_cookie_no_quote_re.fullmatch(chr c)` for c = 0..255. -/
 def noQuote : List Bool := {lean_list([lean_bool(b) for b in noq])}
